@@ -216,6 +216,7 @@ class Prog:
         self.ents = []
         self.id_owner = {}
         self.id_full = {}
+        self.local_inst = {}
         self.expected = {}       # id -> description (every id that must have exactly one body in the IR)
         self.features = {}
         self.sizes = list(range(1, 120))
@@ -821,10 +822,64 @@ class Prog:
             return True
         return cur == owner
 
-    def gen_use(self, Q, L, ind, env):
+    def gen_twins(self, Q, L, ind, env):
+        """two sibling scopes declare a local type of the SAME name (different size) and make the same generic calls:
+        only the scope indices of the type argument distinguish the instances"""
+        rng = self.rng
+        name = rng.choice(["L", "L", "T", "E"])
+        op = rng.choice(self.visible_gens(Q))
+        kinds = ["gfunc", "gfunc2", "gmeth", "box", "k"]
+        rng.shuffle(kinds)
+        kinds = kinds[:rng.choice([2, 3])]
+        comp = rng.choice([None, None, "slice", "ptr", "map", "chan"])
+        wrap = rng.choice([("block", "block"), ("closure", "closure"), ("block", "closure"), ("goclosure", "block")])
+        self.feat("use:twins")
+        for w in wrap:
+            size = self.new_size()
+            while size in self.used_sizes:
+                size = self.new_size()
+            self.used_sizes.append(size)
+            nt = Named(None, name, size, rng.choice(["struct", "array"]), local=True)
+            sub = {"locals": [x for x in env["locals"] if x.name != name] + [nt], "shadow": list(env["shadow"]) + ([name] if name in ("T", "U") else []),
+                   "v": env["v"], "declared": [name]}
+            dc = None
+            if w == "block":
+                L.append(ind + "{")
+            elif w == "closure":
+                L.append(ind + "func() {")
+            else:
+                dc = self.var(env, "dc")
+                L.append(ind + "%s := make(chan int)" % dc)
+                L.append(ind + "go func() {")
+            L.append(ind + "\t" + nt.decl())
+            X = ("n", nt)
+            for k in kinds:
+                if k == "gfunc":
+                    self.gen_use(Q, L, ind + "\t", sub, {"kind": "gfunc", "op": op, "XE": (X, None)})
+                elif k == "gfunc2":
+                    c = (comp or "slice", X)
+                    self.gen_use(Q, L, ind + "\t", sub, {"kind": "gfunc", "op": op, "XE": (c, X)})
+                elif k == "gmeth":
+                    self.gen_use(Q, L, ind + "\t", sub, {"kind": "gmeth", "op": op, "XE": (X, None)})
+                elif k == "box":
+                    self.gen_use(Q, L, ind + "\t", sub, {"kind": "box", "op": op, "XE": ((comp, X) if comp else X, None)})
+                else:
+                    self.gen_use(Q, L, ind + "\t", sub, {"kind": "k", "op": rng.choice(self.gens) if op not in self.gens else op, "XE": (X, None)})
+            if w == "block":
+                L.append(ind + "}")
+            elif w == "closure":
+                L.append(ind + "}()")
+            else:
+                L.append(ind + "\t%s <- 1" % dc)
+                L.append(ind + "}()")
+                L.append(ind + "<-%s" % dc)
+
+    def gen_use(self, Q, L, ind, env, forced=None):
         rng = self.rng
         Q.ref(self.t)
-        kind = rng.choice(["meth", "meth", "iface", "gfunc", "gfunc", "gfunc", "gmeth", "gmeth", "box", "var", "emb", "k"])
+        if forced is None and rng.random() < 0.06:
+            return self.gen_twins(Q, L, ind, env)
+        kind = forced["kind"] if forced else rng.choice(["meth", "meth", "iface", "gfunc", "gfunc", "gfunc", "gmeth", "gmeth", "box", "var", "emb", "k"])
         if kind == "meth":
             p = rng.choice(self.visible_leaves(Q))
             tn = rng.choice(["T", "U"])
@@ -872,9 +927,9 @@ class Prog:
             self.call_modes(L, ind, env, str(e.id), i, meth, Q.ref(ip) + "I", None, False, modes, Q)
             self.feat("use:iface")
         elif kind == "gfunc":
-            op = rng.choice(self.visible_gens(Q))
+            op = forced["op"] if forced else (self.gens[0] if rng.random() < 0.45 else rng.choice(self.visible_gens(Q)))
             o = self.gen_origins[op.path]
-            X, E = self.pick_arg(Q, env, True)
+            X, E = forced["XE"] if forced else self.pick_arg(Q, env, True)
             if E is None and tsize(X) is None:
                 return
             if E is None:
@@ -888,6 +943,7 @@ class Prog:
                     return
                 call = "%sF2[%s, %s]" % (Q.ref(op), rtype(X, Q), rtype(E, Q))
             want = self.expect(ent, size, "[%s]" % tkey(X))
+            self.note_local(Q, ent.id, X)
             m = rng.choice(["direct", "direct", "value", "go", "defer"])
             W = ind + "t.Want(%d)" % want
             if m == "direct":
@@ -903,9 +959,9 @@ class Prog:
             self.feat("use:gfunc:" + m)
             self.feat("targ:" + self.targ_class(X, Q))
         elif kind == "gmeth":
-            op = rng.choice(self.visible_gens(Q))
+            op = forced["op"] if forced else (self.gens[0] if rng.random() < 0.45 else rng.choice(self.visible_gens(Q)))
             o = self.gen_origins[op.path]
-            X, E = self.pick_arg(Q, env, True)
+            X, E = forced["XE"] if forced else self.pick_arg(Q, env, True)
             if E is not None or tsize(X) is None:
                 X = rng.choice(self.base_types(Q, env))
             meth = rng.choice(["M", "P"])
@@ -913,6 +969,7 @@ class Prog:
             if not self.claim(ent, tsize(X), tkey(X), tkey(X)):
                 return
             want = self.expect(ent, tsize(X), "[%s]" % tkey(X))
+            self.note_local(Q, ent.id, X)
             q = self.var(env, "q")
             gt = "%sG[%s]" % (Q.ref(op), rtype(X, Q))
             L.append(ind + "var %s %s" % (q, gt))
@@ -926,9 +983,10 @@ class Prog:
             self.feat("use:gmeth")
             self.feat("targ:" + self.targ_class(X, Q))
         elif kind == "box":
-            op = rng.choice(self.visible_gens(Q))
-            X, E = self.pick_arg(Q, env, False)
+            op = forced["op"] if forced else (self.gens[0] if rng.random() < 0.6 else rng.choice(self.visible_gens(Q)))
+            X, E = forced["XE"] if forced else self.pick_arg(Q, env, False)
             tx = rtype(X, Q)
+            self.note_local(Q, "box:" + op.path, X)
             L.append(ind + "{")
             L.append(ind + "\t_, ok := %sBox[%s](*new(%s)).(%s)" % (Q.ref(op), tx, tx, tx))
             L.append(ind + "\tt.Ok(ok)")
@@ -989,9 +1047,9 @@ class Prog:
             L.append(ind + "_ = %s" % x)
             self.feat("use:emb:" + how)
         elif kind == "k":
-            op = rng.choice(self.gens)
+            op = forced["op"] if forced else rng.choice(self.gens)
             o = self.gen_origins[op.path]
-            X = rng.choice(self.base_types(Q, env))
+            X = forced["XE"][0] if forced else rng.choice(self.base_types(Q, env))
             size = tsize(X)
             if size * 2 >= 1000:
                 return
@@ -1017,6 +1075,18 @@ class Prog:
                     self.expect(o["G.M"], 2 * size, "via K")
             L += [ind + "t.Want(%d)" % want, ind + "%sK[%s]()" % (Q.ref(op), rtype(X, Q))]
             self.feat("use:k")
+
+    def note_local(self, Q, what, X):
+        """count the situations in which only the scope distinguishes two instances: same origin, same package, same type NAME"""
+        lf = leaf(X)[1]
+        if not lf.local:
+            return
+        k = (Q.path, what, lf.name, tkey(X).replace("n%d" % lf.size, "L"))
+        seen = self.local_inst.setdefault(k, [])
+        if lf.size not in seen:
+            seen.append(lf.size)
+            if len(seen) == 2:
+                self.feat("stress:same-origin-same-local-name")
 
     def targ_class(self, X, Q):
         k = X[0]
